@@ -1011,6 +1011,17 @@ def r14_4(ctx):
     ctx.count('histogram_users', n)
 
 
+def r14_5(ctx):
+    """string.to_int: the range test of the conversion reads errno only after resetting it"""
+    from ..idioms import errno_protocol
+    fns = [f for f in ctx.prog.fns() if ctx.fixture or f.file.startswith('libyara/modules/')]
+    errno_protocol(ctx, 'R14.5', fns)
+
+
+FIXTURES['R14.5'] = {'src': 'C14/hashers.c', 'run': r14_5, 'expect': 'bad_to_int:errno-read#0',
+                     'expect_ok': 'good_to_int:errno-read#0'}
+
+
 def run(ctx):
     r14_1(ctx)
     ctx.floor('R14.1', 30)
@@ -1020,3 +1031,5 @@ def run(ctx):
     ctx.floor('R14.3', 15)
     r14_4(ctx)
     ctx.floor('R14.4', 5)
+    r14_5(ctx)
+    ctx.floor('R14.5', 1)
